@@ -447,6 +447,17 @@ fn run_new_cells(cx: &mut Ctx, args: &Args) {
     // own random stream: the probe child and the parent must generate the same cases
     cx.rng = Rng::new(args.seed.wrapping_mul(0xC13).wrapping_add(13));
     cx.case_no = 0;
+    // corpus cases of these cells (witnesses of repaired defects and of the recorded findings)
+    if let Ok(rd) = std::fs::read_dir("corpus/C13").or_else(|_| std::fs::read_dir("/verif/corpus/C13")) {
+        let mut files: Vec<_> = rd.filter_map(|e| e.ok()).map(|e| e.path()).collect();
+        files.sort();
+        for p in files {
+            if let Some(v) = std::fs::read_to_string(&p).ok().and_then(|t| serde_json::from_str::<Value>(&t).ok()) {
+                let c = if v.get("case").is_some() { v["case"].clone() } else { v };
+                if c.get("cell").is_some() { run_one(cx, &c); cx.sum.dist("corpus_cases"); }
+            }
+        }
+    }
     // SIMD varint
     for &v in &ub { c13_io::simd_single(cx, v, &[], false); c13_io::simd_single(cx, v, &[0x80, 0x01], false); }
     for k in 0..(if t { 6000 } else { 500 }) {
@@ -575,6 +586,7 @@ pub fn run(args: &Args) {
             if let Ok(txt) = std::fs::read_to_string(&p) {
                 if let Ok(v) = serde_json::from_str::<Value>(&txt) {
                     let c = if v.get("case").is_some() { v["case"].clone() } else { v };
+                    if c.get("cell").is_some() { continue; } // run with the newer cells, under the probe child
                     run_one(&mut cx, &c);
                     cx.sum.dist("corpus_cases");
                 }
